@@ -3,6 +3,7 @@ import FpgoVerif.Model.C02
 import FpgoVerif.Proofs.C02Float
 import FpgoVerif.Proofs.C02Misc
 import FpgoVerif.Proofs.C02ToFloat
+import FpgoVerif.Proofs.C02Comp
 /-! Property theorems for C02 — "Maybe numeric conversions are value-preserving or fail; never silently wrap".
 
     All theorems are about `convGo` = the evaluator `conv` applied to `Gen.convTable`, the table the
@@ -78,6 +79,24 @@ theorem C02_float64_bits_to_int (tgt : Ty) (ht : tgt ∈ fltDirectTgts) (bits : 
 theorem C02_float32_bits_to_int (tgt : Ty) (ht : tgt ∈ fltDirectTgts) (bits : Nat) :
     specOK tgt (.ty .float32) (.f32 (decode f32 bits)) (convGo tgt (.ty .float32) (.f32 (decode f32 bits))) = true :=
   C02_float_to_int tgt ht true (decode f32 bits) (decode_wf f32 (by decide) bits)
+
+/-- Closing theorem for `ToUintptr` ← float32/float64: the clause calls `ToUint64` (whose float clauses pass
+    the checker above) and narrows the result with an integer guard that passes the interval checker. -/
+theorem C02_table_float_to_uintptr :
+    (compBodyOK Gen.convTable .uintptr true (lookup Gen.convTable .uintptr (.ty .float32)) &&
+     compBodyOK Gen.convTable .uintptr false (lookup Gen.convTable .uintptr (.ty .float64))) = true := by decide +kernel
+
+/-- Clauses (a), (b), (c) for `ToUintptr` of every float32 / float64 value. -/
+theorem C02_float_to_uintptr (is32 : Bool) (x : FVal) (hw : x.wf (fltP is32)) :
+    specOK .uintptr (.ty (fltSrc is32)) (mkF is32 x) (convGo .uintptr (.ty (fltSrc is32)) (mkF is32 x)) = true := by
+  have hc := C02_table_float_to_uintptr
+  simp only [Bool.and_eq_true] at hc
+  have hcell : compBodyOK Gen.convTable .uintptr is32 (lookup Gen.convTable .uintptr (.ty (fltSrc is32))) = true := by
+    cases is32
+    · exact hc.2
+    · exact hc.1
+  have := compBodyOK_sound goStrconv Gen.convTable 3 .uintptr is32 hcell x hw
+  cases is32 <;> simpa [specOK, convGo, convFuel, fltSrc, mkF] using this
 
 -- 2^63 as a float64 is rejected by ToInt64 (the pinned code accepted it and returned MinInt64)
 example : convGo .int64 (.ty .float64) (.f64 (.fin false 9223372036854775808 0)) = ⟨.i 0, .overflow⟩ := by decide +kernel
